@@ -371,4 +371,11 @@ NoUnderflow == \A t \in Thr : /\ pc[t] = "dec_cas" => cnt[reg[t].o].s >= 1
 Once == \A t \in Thr : /\ pc[t] = "dg3" => life[reg[t].o] = "live"
                        /\ (pc[t] = "dg5" \/ pc[t] = "tdealloc2") => life[reg[t].o] = "dead"
 EpochBound == \A t \in Thr : Pinned(t) => gep \in {lep[t], lep[t] + 1}
+Quiescent == \A t \in Thr : pc[t] = "idle" /\ mode[t] = "out"
+NoTasks == \A k \in TaskKey : tasks[k] = 0
+NoOwner(o) == \A t \in Thr : rc[t][o] = 0
+Linked(o) == \E l \in Loc : (l \in Cell \/ life[l] = "live") /\ lnk[l].p = o
+WeaklyHeld(o) == \E t \in Thr : wk[t][o] > 0
+Leak == (Quiescent /\ NoTasks) =>
+          \A o \in Obj : (life[o] \in {"live", "dead"} /\ NoOwner(o) /\ ~Linked(o)) => (life[o] = "dead" /\ WeaklyHeld(o))
 =============================================================================
